@@ -36,6 +36,10 @@ class Observation:
         for k, n in enumerate(world['names']):
             key = P.name_id(n['b'], k)
             self.names[k] = norm_value(sol[key]) if key in sol else MISSING
+        self.vnames = {}  # formula-valued names: raw value | None
+        for k, n in enumerate(world.get('vnames', [])):
+            key = P.vname_id(n['b'], k)
+            self.vnames[k] = sol[key] if key in sol else None
 
     def cell_norm(self, i):
         a = self.raw[i]
@@ -92,6 +96,11 @@ class FixedPoint:
     def ref_table(self, expr):
         """{canonical id: ('r', ref) | ('nm', k)} for an expression."""
         t = {}
+        from .expr import walk
+        for x in walk(expr):
+            if x[0] == 'vn':
+                n = self.world['vnames'][x[1]]
+                t[self.P.vname_id(n['b'], x[1])] = x
         for x in refs_of(expr):
             if x[0] == 'r':
                 t[self.P.rect_id(*x[1:])] = x
@@ -110,17 +119,41 @@ class FixedPoint:
         from formulas.ranges import Ranges
         from formulas.functions import replace_empty
         c = self.world['cells'][i]
-        text = self.R.formula(c['f'], (c['at'][0], c['at'][1]))
+        st, res = self.eval_expr(c['f'], (c['at'][0], c['at'][1]), obs,
+                                 pinned)
+        if st != 'ok':
+            return st, res
+        text = ''
+        try:
+            res = replace_empty(res)
+            b, s, r1, c1, r2, c2 = cell_rect(c)
+            out = Ranges().push(self.P.rect_id(b, s, r1, c1, r2, c2), res)
+            return 'ok', norm_value(out)
+        except Exception as ex:
+            return 'oracle-error', 'fit cell %d: %r' % (i, ex)
+
+    def eval_expr(self, expr, host, obs, pinned=None):
+        """Raw result of an expression on the observed values:
+        ('ok', value) | ('skip', why) | ('oracle-error', why)."""
+        import schedula as sh
+        from formulas.ranges import Ranges
+        text = self.R.formula(expr, host)
         try:
             func = _compile(text)
         except Exception as ex:
             return 'oracle-error', 'compile %s: %r' % (text, ex)
-        table = self.ref_table(c['f'])
+        table = self.ref_table(expr)
         args = []
         for key in func.inputs:
             x = table.get(key)
             if x is None:
                 return 'oracle-error', 'unmatched input %s of %s' % (key, text)
+            if x[0] == 'vn':
+                v = obs.vnames.get(x[1])
+                if v is None:
+                    return 'skip', 'missing name value'
+                args.append(v)
+                continue
             if x[0] == 'nm' and x[1] in getattr(obs, 'bad_names', ()):
                 # undefined name (fault worlds): the library feeds the error
                 from formulas.tokens.operand import Error
@@ -147,13 +180,7 @@ class FixedPoint:
                 return 'oracle-error', 'eval %s: %r' % (text, ex)
         except Exception as ex:
             return 'oracle-error', 'eval %s: %r' % (text, ex)
-        try:
-            res = replace_empty(res)
-            b, s, r1, c1, r2, c2 = cell_rect(c)
-            out = Ranges().push(self.P.rect_id(b, s, r1, c1, r2, c2), res)
-            return 'ok', norm_value(out)
-        except Exception as ex:
-            return 'oracle-error', 'fit %s: %r' % (text, ex)
+        return 'ok', res
 
     def check(self, obs, pinned_cells=None, pinned=None, only=None):
         """Yield (cell index, clause, expected, got) for every deviation.
